@@ -23,6 +23,8 @@ type History struct {
 	// Faults[i] = files made unwritable during the update of step i (classes of lib/cfgsm:
 	// tcpmaps, front:crt, front:host, front:rootredir, front:rootssl, backmaps, tcpcrt, main, shard:<j>)
 	Faults [][]string `json:"faults,omitempty"`
+	// Dyn: dynamic-scaling history, run against the fake haproxy's admin socket (dyn.go)
+	Dyn bool `json:"dyn,omitempty"`
 }
 
 func (h History) faultsOf(i int) []string {
@@ -352,8 +354,35 @@ func main() {
 			inputs = append(inputs, h)
 		}
 	}
+	if o.Replay == "" {
+		inputs = append(inputs, dynCorpus()...)
+		nd := o.Count(60, 2000)
+		if o.Search {
+			nd = o.Count(400, 2000)
+		}
+		for i := 0; i < nd; i++ {
+			inputs = append(inputs, genDyn(rng, o.Search))
+		}
+	}
 	cw := newCaseWriter(o, res)
 	for _, h := range inputs {
+		if h.Dyn {
+			r := runDyn(base, h)
+			b, _ := json.Marshal(h)
+			res.Seen(string(b), r.Dynamic > 0 && r.Reloads > 1)
+			res.Count("dyn_histories")
+			res.Distribution["dyn_updates_through_runtime_api"] += r.Dynamic
+			res.Distribution["dyn_reloads"] += r.Reloads
+			res.OracleChecks += r.Steps
+			if len(res.Samples) < 6 && r.Dynamic > 0 {
+				res.Sample(6, map[string]interface{}{"history": h, "servers_after_last_step": r.Files})
+			}
+			if r.Key != "" {
+				res.Count("oracle_fail_" + r.Key)
+				res.Fail(hx.Failure{Key: "C05/" + r.Key, What: r.What, Input: h, Observed: r.Files})
+			}
+			continue
+		}
 		r := runHistory(base, h, true)
 		b, _ := json.Marshal(h)
 		partialChange := false
@@ -384,7 +413,7 @@ func main() {
 			}
 			files = append(files, f.File+":"+strings.Join(bs, ","))
 		}
-		res.Sample(5, map[string]interface{}{"history": h, "files_after_last_step": files})
+		res.Sample(4, map[string]interface{}{"history": h, "files_after_last_step": files})
 		if r.Key != "" {
 			res.Count("oracle_fail_" + r.Key)
 			res.Fail(hx.Failure{Key: "C05/" + r.Key, What: r.What, Input: h, Observed: files})
